@@ -145,7 +145,7 @@ def segment_invariants(r, key_prefix, case, t, y, i0, i1, target, t0_first, y0_f
     if i1 == i0:
         return True
     seg = T[i0:i1 + 1].astype(LD)
-    d = 1 if float(target) > float(seg[0]) else -1
+    d = 1 if LD(target) > seg[0] else -1          # (in the working precision: a target a few longdouble ulps away equals the start in float64)
     diffs = np.diff(seg) * d
     if np.any(diffs <= 0):
         k = int(np.nonzero(diffs <= 0)[0][0])
